@@ -200,24 +200,32 @@ Proof.
   reflexivity.
 Qed.
 
-(** source keys are all present in a map they were merged into *)
+(** source keys are all present in a map they were merged into (comparison of 9775a95) *)
 Lemma maps_equal_after_copy : forall s t,
-    maps_equal_by_source_keys (norm_map (Some s)) (norm_map (Some (copy_into s t))) = true.
+    maps_equal_by_source_keys true (Some s) (norm_map (Some (copy_into s t))) = true.
 Proof.
-  intros s t. destruct s as [|[k v] r] eqn:Es; [reflexivity|].
-  rewrite <- Es. assert (norm_map (Some s) = Some s) as -> by now rewrite Es.
-  destruct (copy_into s t) as [|y c] eqn:Ec.
-  - exfalso. assert (lookup k (copy_into s t) = Some v) as Hl.
-    { rewrite lookup_copy_into, Es. cbn. now rewrite String.eqb_refl. }
-    rewrite Ec in Hl. discriminate.
-  - cbn [norm_map maps_equal_by_source_keys]. rewrite <- Ec. apply forallb_forall.
-    intros [k' v'] Hin. cbn [fst]. rewrite lookup_copy_into.
-    destruct (lookup k' s) eqn:E.
-    + cbn. apply String.eqb_refl.
-    + exfalso. clear - Hin E. induction s as [|[k0 v0] r IH]; cbn in *; [contradiction|].
-      destruct Hin as [H|H].
-      * inversion H; subst. now rewrite String.eqb_refl in E.
-      * destruct (String.eqb k' k0); [discriminate|]. auto.
+  intros s t. destruct s as [|[k v] r] eqn:Es.
+  - destruct (norm_map (Some (copy_into [] t))); reflexivity.
+  - rewrite <- Es.
+    destruct (copy_into s t) as [|y c] eqn:Ec.
+    + exfalso. assert (lookup k (copy_into s t) = Some v) as Hl.
+      { rewrite lookup_copy_into, Es. cbn. now rewrite String.eqb_refl. }
+      rewrite Ec in Hl. discriminate.
+    + cbn [norm_map maps_equal_by_source_keys]. rewrite <- Ec. apply forallb_forall.
+      intros [k' v'] Hin. cbn [fst]. rewrite lookup_copy_into.
+      destruct (lookup k' s) eqn:E.
+      * cbn. apply String.eqb_refl.
+      * exfalso. clear - Hin E. induction s as [|[k0 v0] r IH]; cbn in *; [contradiction|].
+        destruct Hin as [H|H].
+        -- inversion H; subst. now rewrite String.eqb_refl in E.
+        -- destruct (String.eqb k' k0); [discriminate|]. auto.
+Qed.
+
+Lemma maps_equal_norm_self : forall ml,
+    maps_equal_by_source_keys true ml (norm_map ml) = true.
+Proof.
+  intros [l|]; [|reflexivity].
+  rewrite <- (copy_into_self l) at 2. apply maps_equal_after_copy.
 Qed.
 
 (** * ApplyToCluster on one slot *)
@@ -236,10 +244,10 @@ Definition q_step (cfg : config) (o l : smap) : smap :=
 Definition ignored_labels (cfg : config) (old new : pg) : smap :=
   q_step cfg (or_nil (pg_labels old)) (np_step cfg (or_nil (pg_labels old)) (or_nil (pg_labels new))).
 
-Lemma ignore_fields_labels : forall cfg old new,
-    pg_labels (ignore_fields cfg old new) = Some (ignored_labels cfg old new).
+Lemma ignore_fields_labels : forall sg cfg old new,
+    pg_labels (ignore_fields sg cfg old new) = Some (ignored_labels cfg old new).
 Proof.
-  intros cfg old new. unfold ignore_fields, ignored_labels, q_step, np_step. cbn [pg_labels].
+  intros sg cfg old new. unfold ignore_fields, ignored_labels, q_step, np_step. cbn [pg_labels].
   rewrite !mget_or_nil. destruct (pg_labels new); reflexivity.
 Qed.
 
@@ -288,105 +296,124 @@ Proof.
 Qed.
 
 (** the two shapes a slot can have after a write by ApplyToCluster *)
-Definition written (cfg : config) (m : metadata) (cur : option pg) : pg :=
+Definition written (sg : bool) (cfg : config) (m : metadata) (cur : option pg) : pg :=
   match cur with
   | None => norm (create_pg m)
-  | Some old => norm (update_pg old (ignore_fields cfg old (create_pg m)))
+  | Some old => norm (update_pg old (ignore_fields sg cfg old (create_pg m)))
   end.
 
-Lemma or_nil_written_labels : forall cfg m cur,
-    or_nil (pg_labels (written cfg m cur)) =
+Lemma or_nil_written_labels : forall sg cfg m cur,
+    or_nil (pg_labels (written sg cfg m cur)) =
     match cur with
     | None => or_nil (m_labels m)
     | Some old => copy_into (ignored_labels cfg old (create_pg m)) (or_nil (pg_labels old))
     end.
 Proof.
-  intros cfg m [old|]; cbn [written norm pg_labels update_pg create_pg].
+  intros sg cfg m [old|]; cbn [written norm pg_labels update_pg create_pg].
   - rewrite ignore_fields_labels, copy_string_map_some, or_nil_norm_map. reflexivity.
   - apply or_nil_norm_map.
 Qed.
 
 (** ignoreFields against what was just written reproduces the labels that were written from *)
-Lemma ignored_labels_written : forall cfg m cur,
-    ignored_labels cfg (written cfg m cur) (create_pg m) =
+Lemma ignored_labels_written : forall sg cfg m cur,
+    ignored_labels cfg (written sg cfg m cur) (create_pg m) =
     match cur with
     | None => or_nil (m_labels m)
     | Some old => ignored_labels cfg old (create_pg m)
     end.
 Proof.
-  intros cfg m cur. unfold ignored_labels at 1. rewrite or_nil_written_labels.
+  intros sg cfg m cur. unfold ignored_labels at 1. rewrite or_nil_written_labels.
   destruct cur as [old|].
   - unfold ignored_labels. apply ignored_labels_stable.
   - cbn [create_pg pg_labels]. apply ignored_labels_self.
 Qed.
 
-Lemma written_again : forall cfg m cur,
-    norm (update_pg (written cfg m cur) (ignore_fields cfg (written cfg m cur) (create_pg m)))
-    = written cfg m cur.
+(** whatever was stored before, a written slot holds the sub-groups as the API keeps them *)
+Lemma written_subgroups : forall sg cfg m cur,
+    sp_subgroups (written sg cfg m cur) = norm_slice (Some (m_subgroups m)).
 Proof.
-  intros cfg m cur.
-  assert (pg_labels (norm (update_pg (written cfg m cur) (ignore_fields cfg (written cfg m cur) (create_pg m))))
-          = pg_labels (written cfg m cur)) as Hl.
-  { cbn [norm pg_labels update_pg]. rewrite ignore_fields_labels, copy_string_map_some.
-    rewrite ignored_labels_written, or_nil_written_labels.
-    destruct cur as [old|]; cbn [written norm pg_labels update_pg create_pg].
-    - rewrite ignore_fields_labels, copy_string_map_some, copy_into_idem. reflexivity.
-    - rewrite copy_into_self. now destruct (m_labels m) as [[|x l]|]. }
-  assert (pg_annots (norm (update_pg (written cfg m cur) (ignore_fields cfg (written cfg m cur) (create_pg m))))
-          = pg_annots (written cfg m cur)) as Ha.
-  { destruct cur as [old|]; cbn [written norm pg_annots update_pg create_pg ignore_fields].
-    - apply csm_round_trip.
-    - destruct (m_annots m) as [s|]; [|reflexivity].
-      rewrite copy_string_map_some, or_nil_norm_map. cbn [or_nil]. rewrite copy_into_self.
-      reflexivity. }
-  destruct cur as [old|]; cbn [written] in *;
-    unfold norm in *; cbn [pg_labels pg_annots] in Hl, Ha; cbn -[norm_map copy_string_map ignore_fields] in *;
-    f_equal; try assumption; try apply norm_slice_idem.
+  intros sg cfg m [old|]; cbn [written norm sp_subgroups update_pg ignore_fields create_pg]; [|reflexivity].
+  destruct sg; cbn [andb]; [|reflexivity].
+  destruct (m_subgroups m) as [|x r]; cbn [slice_empty andb]; [|reflexivity].
+  destruct (sp_subgroups old) as [[|y l]|]; reflexivity.
 Qed.
 
-Lemma apply_slot_cases : forall eq cfg m cur,
-    (fst (apply_slot_with eq cfg m cur) = written cfg m cur /\ snd (apply_slot_with eq cfg m cur) = 1%Z)
-    \/ (exists old, cur = Some old /\ eq old (ignore_fields cfg old (create_pg m)) = true
-                    /\ apply_slot_with eq cfg m cur = (old, 0%Z)).
+Lemma ignore_written_subgroups : forall sg cfg m cur,
+    sp_subgroups (ignore_fields sg cfg (written sg cfg m cur) (create_pg m)) =
+    if sg then norm_slice (Some (m_subgroups m)) else Some (m_subgroups m).
 Proof.
-  intros eq cfg m [old|]; unfold apply_slot_with.
-  - destruct (eq old (ignore_fields cfg old (create_pg m))) eqn:E.
+  intros sg cfg m cur. unfold ignore_fields. cbn [sp_subgroups create_pg]. rewrite written_subgroups.
+  destruct sg, (m_subgroups m); reflexivity.
+Qed.
+
+Lemma pg_eq_fields : forall a b,
+    pg_labels a = pg_labels b -> pg_annots a = pg_annots b -> pg_owners a = pg_owners b ->
+    sp_min a = sp_min b -> sp_queue a = sp_queue b -> sp_prio a = sp_prio b ->
+    sp_preempt a = sp_preempt b -> sp_mark a = sp_mark b -> sp_backoff a = sp_backoff b ->
+    sp_subgroups a = sp_subgroups b -> sp_topo a = sp_topo b -> a = b.
+Proof. intros [] []; cbn; intros; subst; reflexivity. Qed.
+
+Lemma written_again : forall sg cfg m cur,
+    norm (update_pg (written sg cfg m cur) (ignore_fields sg cfg (written sg cfg m cur) (create_pg m)))
+    = written sg cfg m cur.
+Proof.
+  intros sg cfg m cur. apply pg_eq_fields.
+  - cbn [norm pg_labels update_pg]. rewrite ignore_fields_labels, copy_string_map_some.
+    rewrite ignored_labels_written, or_nil_written_labels.
+    destruct cur as [old|]; cbn [written norm pg_labels update_pg create_pg].
+    + rewrite ignore_fields_labels, copy_string_map_some, copy_into_idem. reflexivity.
+    + rewrite copy_into_self. now destruct (m_labels m) as [[|x l]|].
+  - destruct cur as [old|]; cbn [written norm pg_annots update_pg create_pg ignore_fields].
+    + apply csm_round_trip.
+    + destruct (m_annots m) as [s|]; [|reflexivity].
+      rewrite copy_string_map_some, or_nil_norm_map. cbn [or_nil]. rewrite copy_into_self.
+      reflexivity.
+  - destruct cur; reflexivity.
+  - destruct cur; reflexivity.
+  - destruct cur; reflexivity.
+  - destruct cur; reflexivity.
+  - destruct cur; reflexivity.
+  - destruct cur; reflexivity.
+  - destruct cur; reflexivity.
+  - cbn [norm update_pg sp_subgroups]. rewrite ignore_written_subgroups, written_subgroups.
+    destruct sg; now rewrite ?norm_slice_idem.
+  - destruct cur; reflexivity.
+Qed.
+
+Lemma apply_slot_cases : forall sg eq cfg m cur,
+    (fst (apply_slot_with sg eq cfg m cur) = written sg cfg m cur /\ snd (apply_slot_with sg eq cfg m cur) = 1%Z)
+    \/ (exists old, cur = Some old /\ eq old (ignore_fields sg cfg old (create_pg m)) = true
+                    /\ apply_slot_with sg eq cfg m cur = (old, 0%Z)).
+Proof.
+  intros sg eq cfg m [old|]; unfold apply_slot_with.
+  - destruct (eq old (ignore_fields sg cfg old (create_pg m))) eqn:E.
     + right. exists old. auto.
     + left. split; reflexivity.
   - left. split; reflexivity.
 Qed.
 
-(** (S1) a second application leaves the slot as the first one left it, whatever the equality test *)
-Lemma apply_slot_idem_state : forall eq cfg m cur,
-    fst (apply_slot_with eq cfg m (Some (fst (apply_slot_with eq cfg m cur)))) = fst (apply_slot_with eq cfg m cur).
+(** (S1) a second application leaves the slot as the first one left it, whatever the version of
+    ignoreFields and whatever the equality test *)
+Lemma apply_slot_idem_state : forall sg eq cfg m cur,
+    fst (apply_slot_with sg eq cfg m (Some (fst (apply_slot_with sg eq cfg m cur)))) = fst (apply_slot_with sg eq cfg m cur).
 Proof.
-  intros eq cfg m cur.
-  destruct (apply_slot_cases eq cfg m cur) as [[Hw _]|[old [-> [E Hr]]]].
+  intros sg eq cfg m cur.
+  destruct (apply_slot_cases sg eq cfg m cur) as [[Hw _]|[old [-> [E Hr]]]].
   - rewrite Hw. unfold apply_slot_with.
     destruct (eq _ _); cbn [fst]; [reflexivity|apply written_again].
   - rewrite Hr. cbn [fst]. unfold apply_slot_with. now rewrite E.
 Qed.
 
-Lemma norm_written : forall cfg m cur, norm (written cfg m cur) = written cfg m cur.
-Proof. intros cfg m [old|]; apply norm_idem. Qed.
-
-Lemma maps_equal_norm_self : forall ml,
-    maps_equal_by_source_keys (norm_map ml) (norm_map ml) = true.
+(** (S2) the handler since 9775a95 recognises what it wrote as up to date *)
+Lemma written_is_equal_v1 : forall cfg m cur,
+    pg_equal_v1 (written true cfg m cur) (ignore_fields true cfg (written true cfg m cur) (create_pg m)) = true.
 Proof.
-  intros [l|]; [|reflexivity].
-  rewrite <- (copy_into_self l) at 2. apply maps_equal_after_copy.
-Qed.
-
-(** (S2) with the repaired comparison, what ApplyToCluster wrote is recognised as up to date *)
-Lemma written_is_equal_fixed : forall cfg m cur,
-    pg_equal_fixed (written cfg m cur) (ignore_fields cfg (written cfg m cur) (create_pg m)) = true.
-Proof.
-  intros cfg m cur. unfold pg_equal_fixed. rewrite norm_written. unfold pg_equal_v0.
+  intros cfg m cur. unfold pg_equal_v1, pg_equal_with.
   rewrite !andb_true_iff. repeat split.
-  - apply spec_eqb_fields; destruct cur as [old|]; try reflexivity;
-      cbn [written norm update_pg ignore_fields create_pg sp_subgroups]; now rewrite ?norm_slice_idem.
+  - apply spec_eqb_fields; try (destruct cur as [old|]; reflexivity).
+    now rewrite ignore_written_subgroups, written_subgroups.
   - destruct cur as [old|]; cbn; now rewrite owner_ref_eqb_refl.
-  - cbn [norm pg_labels]. rewrite ignore_fields_labels, ignored_labels_written.
+  - rewrite ignore_fields_labels, ignored_labels_written.
     destruct cur as [old|]; cbn [written norm pg_labels update_pg create_pg].
     + rewrite ignore_fields_labels, copy_string_map_some. apply maps_equal_after_copy.
     + destruct (m_labels m) as [l|]; [|reflexivity]. cbn [or_nil]. apply (maps_equal_norm_self (Some l)).
@@ -396,36 +423,36 @@ Proof.
     + apply maps_equal_norm_self.
 Qed.
 
-Lemma apply_slot_fixed_second_zero : forall cfg m cur,
-    snd (apply_slot_with pg_equal_fixed cfg m (Some (fst (apply_slot_with pg_equal_fixed cfg m cur)))) = 0%Z.
+Lemma apply_slot_v1_second_zero : forall cfg m cur,
+    snd (apply_slot_with true pg_equal_v1 cfg m (Some (fst (apply_slot_with true pg_equal_v1 cfg m cur)))) = 0%Z.
 Proof.
   intros cfg m cur.
-  destruct (apply_slot_cases pg_equal_fixed cfg m cur) as [[Hw _]|[old [-> [E Hr]]]].
-  - rewrite Hw. unfold apply_slot_with. now rewrite written_is_equal_fixed.
+  destruct (apply_slot_cases true pg_equal_v1 cfg m cur) as [[Hw _]|[old [-> [E Hr]]]].
+  - rewrite Hw. unfold apply_slot_with. now rewrite written_is_equal_v1.
   - rewrite Hr. cbn [fst]. unfold apply_slot_with. now rewrite E.
 Qed.
 
 (** (S3) fields owned by other actors survive ApplyToCluster, whatever the equality test *)
-Lemma apply_slot_foreign_view : forall eq cfg m old,
-    foreign_view cfg (fst (apply_slot_with eq cfg m (Some old))) = foreign_view cfg old.
+Lemma apply_slot_foreign_view : forall sg eq cfg m old,
+    foreign_view cfg (fst (apply_slot_with sg eq cfg m (Some old))) = foreign_view cfg old.
 Proof.
-  intros eq cfg m old. unfold apply_slot_with.
+  intros sg eq cfg m old. unfold apply_slot_with.
   destruct (eq old _); cbn [fst]; [reflexivity|].
   unfold foreign_view. cbn [norm update_pg ignore_fields sp_queue sp_mark sp_backoff pg_labels].
   f_equal. rewrite mget_norm_map.
   change (Some (match mget (c_queue_key cfg) (pg_labels old) with
                 | Some v => aset (c_queue_key cfg) v _ | None => _ end))
-    with (pg_labels (ignore_fields cfg old (create_pg m))).
+    with (pg_labels (ignore_fields sg cfg old (create_pg m))).
   rewrite ignore_fields_labels, copy_string_map_some. cbn [mget].
   rewrite lookup_copy_into. unfold ignored_labels. rewrite ignored_nodepool, mget_or_nil.
   now destruct (lookup (c_nodepool_key cfg) (or_nil (pg_labels old))).
 Qed.
 
-Lemma apply_slot_queue_label : forall eq cfg m old v,
+Lemma apply_slot_queue_label : forall sg eq cfg m old v,
     mget (c_queue_key cfg) (pg_labels old) = Some v ->
-    mget (c_queue_key cfg) (pg_labels (fst (apply_slot_with eq cfg m (Some old)))) = Some v.
+    mget (c_queue_key cfg) (pg_labels (fst (apply_slot_with sg eq cfg m (Some old)))) = Some v.
 Proof.
-  intros eq cfg m old v H. unfold apply_slot_with.
+  intros sg eq cfg m old v H. unfold apply_slot_with.
   destruct (eq old _); cbn [fst]; [assumption|].
   cbn [norm update_pg pg_labels]. rewrite mget_norm_map, ignore_fields_labels, copy_string_map_some.
   cbn [mget]. rewrite lookup_copy_into. unfold ignored_labels.
@@ -433,12 +460,753 @@ Proof.
 Qed.
 
 (** labels and annotations the grouper does not produce are kept as well *)
-Lemma apply_slot_other_labels : forall eq cfg m old k,
+Lemma apply_slot_other_labels : forall sg eq cfg m old k,
     lookup k (ignored_labels cfg old (create_pg m)) = None ->
-    mget k (pg_labels (fst (apply_slot_with eq cfg m (Some old)))) = mget k (pg_labels old).
+    mget k (pg_labels (fst (apply_slot_with sg eq cfg m (Some old)))) = mget k (pg_labels old).
 Proof.
-  intros eq cfg m old k H. unfold apply_slot_with.
+  intros sg eq cfg m old k H. unfold apply_slot_with.
   destruct (eq old _); cbn [fst]; [reflexivity|].
   cbn [norm update_pg pg_labels]. rewrite mget_norm_map, ignore_fields_labels, copy_string_map_some.
   cbn [mget]. now rewrite lookup_copy_into, H, mget_or_nil.
+Qed.
+
+(** * Commuting idempotent steps: the outcome depends on the set of steps only *)
+Section Commutative.
+  Context {S E : Type}.
+  Variable equiv : S -> S -> Prop.
+  Variable step : E -> S -> S.
+  Variable ok : E -> Prop.
+  Hypothesis equiv_refl : forall s, equiv s s.
+  Hypothesis equiv_sym : forall s t, equiv s t -> equiv t s.
+  Hypothesis equiv_trans : forall s t r, equiv s t -> equiv t r -> equiv s r.
+  Hypothesis step_resp : forall e s t, equiv s t -> equiv (step e s) (step e t).
+  Hypothesis step_idem : forall e s, ok e -> equiv (step e (step e s)) (step e s).
+  Hypothesis step_comm : forall e f s, ok e -> ok f -> equiv (step e (step f s)) (step f (step e s)).
+
+  Definition runs (es : list E) (s : S) : S := fold_left (fun s e => step e s) es s.
+
+  Lemma runs_resp : forall es s t, equiv s t -> equiv (runs es s) (runs es t).
+  Proof. induction es as [|x es IH]; intros s t H; cbn; auto. Qed.
+
+  Lemma runs_step_comm : forall es e s, Forall ok es -> ok e -> equiv (runs es (step e s)) (step e (runs es s)).
+  Proof.
+    induction es as [|x es IH]; intros e s Hes He; cbn; [apply equiv_refl|].
+    inversion Hes as [|? ? Hx Hes']; subst.
+    eapply equiv_trans; [|apply IH; assumption].
+    apply runs_resp. apply step_comm; assumption.
+  Qed.
+
+  Lemma runs_absorb : forall es e s, Forall ok es -> In e es -> equiv (step e (runs es s)) (runs es s).
+  Proof.
+    induction es as [|x es IH]; intros e s Hes Hin; [contradiction|].
+    inversion Hes as [|? ? Hx Hes']; subst. cbn. destruct Hin as [->|Hin].
+    - eapply equiv_trans; [apply equiv_sym, runs_step_comm; assumption|].
+      apply runs_resp. apply step_idem; assumption.
+    - apply IH; assumption.
+  Qed.
+
+  Lemma runs_incl_absorb : forall es1 es2 s,
+      Forall ok es1 -> Forall ok es2 -> incl es1 es2 -> equiv (runs es2 (runs es1 s)) (runs es2 s).
+  Proof.
+    induction es1 as [|x es1 IH]; intros es2 s H1 H2 Hincl; cbn; [apply equiv_refl|].
+    inversion H1 as [|? ? Hx H1']; subst.
+    eapply equiv_trans; [apply IH; try assumption; intros y Hy; apply Hincl; now right|].
+    eapply equiv_trans; [apply runs_step_comm; assumption|].
+    apply runs_absorb; [assumption|]. apply Hincl. now left.
+  Qed.
+
+  Lemma runs_comm : forall es1 es2 s,
+      Forall ok es1 -> Forall ok es2 -> equiv (runs es1 (runs es2 s)) (runs es2 (runs es1 s)).
+  Proof.
+    induction es1 as [|x es1 IH]; intros es2 s H1 H2; cbn; [apply equiv_refl|].
+    inversion H1 as [|? ? Hx H1']; subst.
+    eapply equiv_trans; [apply runs_resp, equiv_sym, runs_step_comm; assumption|].
+    apply IH; assumption.
+  Qed.
+
+  Theorem runs_same_set : forall es1 es2 s,
+      Forall ok es1 -> Forall ok es2 -> incl es1 es2 -> incl es2 es1 -> equiv (runs es1 s) (runs es2 s).
+  Proof.
+    intros es1 es2 s H1 H2 I12 I21.
+    eapply equiv_trans; [apply equiv_sym, (runs_incl_absorb es2 es1); assumption|].
+    eapply equiv_trans; [apply runs_comm; assumption|].
+    apply runs_incl_absorb; assumption.
+  Qed.
+End Commutative.
+
+(** * States *)
+Definition st_equiv (s t : state) : Prop :=
+  (forall n, get_pg n s = get_pg n t) /\ (forall k, get_asg k s = get_asg k t).
+
+Lemma st_equiv_refl : forall s, st_equiv s s.
+Proof. split; reflexivity. Qed.
+Lemma st_equiv_sym : forall s t, st_equiv s t -> st_equiv t s.
+Proof. intros s t [H1 H2]; split; intros; symmetry; auto. Qed.
+Lemma st_equiv_trans : forall s t r, st_equiv s t -> st_equiv t r -> st_equiv s r.
+Proof. intros s t r [H1 H2] [H3 H4]; split; intros; etransitivity; eauto. Qed.
+
+Definition rec_step (sg : bool) (eq : pg -> pg -> bool) (cfg : config) (cl : list obj) (p : pod) (s : state) : state :=
+  fst (reconcile_with sg eq cfg cl p s).
+
+Lemma rec_step_none : forall sg eq cfg cl p s,
+    full_md cfg cl p (get_asg (p_name p) s) = None -> reconcile_with sg eq cfg cl p s = (s, 0%Z).
+Proof. intros sg eq cfg cl p s H. unfold reconcile_with. now rewrite H. Qed.
+
+Lemma rec_step_some : forall sg eq cfg cl p s m,
+    full_md cfg cl p (get_asg (p_name p) s) = Some m ->
+    (forall n, get_pg n (rec_step sg eq cfg cl p s) =
+               if String.eqb n (m_name m)
+               then Some (fst (apply_slot_with sg eq cfg m (get_pg (m_name m) s)))
+               else get_pg n s)
+    /\ (forall k, get_asg k (rec_step sg eq cfg cl p s) =
+                  if String.eqb k (p_name p) then Some (m_name m) else get_asg k s)
+    /\ snd (reconcile_with sg eq cfg cl p s) =
+       (snd (apply_slot_with sg eq cfg m (get_pg (m_name m) s))
+        + (if needs_patch m p (get_asg (p_name p) s) then 1 else 0))%Z.
+Proof.
+  intros sg eq cfg cl p s m H. unfold rec_step, reconcile_with. rewrite H.
+  cbn [fst snd apply_to_cluster_with st_pgs st_asg]. repeat split.
+  - intros n. unfold get_pg at 1. cbn [st_pgs]. apply lookup_aset.
+  - intros k. unfold get_asg at 1. cbn [st_asg]. apply lookup_aset.
+Qed.
+
+Lemma rec_step_resp : forall sg eq cfg cl p s t,
+    st_equiv s t -> st_equiv (rec_step sg eq cfg cl p s) (rec_step sg eq cfg cl p t).
+Proof.
+  intros sg eq cfg cl p s t [Hp Ha].
+  destruct (full_md cfg cl p (get_asg (p_name p) s)) as [m|] eqn:E.
+  - assert (full_md cfg cl p (get_asg (p_name p) t) = Some m) as E' by now rewrite <- Ha.
+    destruct (rec_step_some sg eq cfg cl p s m E) as [P1 [A1 _]].
+    destruct (rec_step_some sg eq cfg cl p t m E') as [P2 [A2 _]].
+    split; intros x; rewrite ?P1, ?P2, ?A1, ?A2, ?Hp, ?Ha; reflexivity.
+  - assert (full_md cfg cl p (get_asg (p_name p) t) = None) as E' by now rewrite <- Ha.
+    unfold rec_step. rewrite (rec_step_none _ _ _ _ _ _ E), (rec_step_none _ _ _ _ _ _ E'). now split.
+Qed.
+
+Lemma rec_writes_resp : forall sg eq cfg cl p s t,
+    st_equiv s t -> snd (reconcile_with sg eq cfg cl p s) = snd (reconcile_with sg eq cfg cl p t).
+Proof.
+  intros sg eq cfg cl p s t [Hp Ha].
+  destruct (full_md cfg cl p (get_asg (p_name p) s)) as [m|] eqn:E.
+  - assert (full_md cfg cl p (get_asg (p_name p) t) = Some m) as E' by now rewrite <- Ha.
+    destruct (rec_step_some sg eq cfg cl p s m E) as [_ [_ W1]].
+    destruct (rec_step_some sg eq cfg cl p t m E') as [_ [_ W2]].
+    now rewrite W1, W2, Hp, Ha.
+  - assert (full_md cfg cl p (get_asg (p_name p) t) = None) as E' by now rewrite <- Ha.
+    now rewrite (rec_step_none _ _ _ _ _ _ E), (rec_step_none _ _ _ _ _ _ E').
+Qed.
+
+(** after its own reconcile a pod's metadata is unchanged, or the pod is skipped from then on *)
+Definition settles (cfg : config) (cl : list obj) (p : pod) : Prop :=
+  forall a m, full_md cfg cl p a = Some m ->
+              full_md cfg cl p (Some (m_name m)) = Some m \/ full_md cfg cl p (Some (m_name m)) = None.
+
+Lemma rec_step_idem : forall sg eq cfg cl p s,
+    settles cfg cl p ->
+    st_equiv (rec_step sg eq cfg cl p (rec_step sg eq cfg cl p s)) (rec_step sg eq cfg cl p s).
+Proof.
+  intros sg eq cfg cl p s Hset.
+  destruct (full_md cfg cl p (get_asg (p_name p) s)) as [m|] eqn:E.
+  - destruct (rec_step_some sg eq cfg cl p s m E) as [P1 [A1 _]].
+    set (s1 := rec_step sg eq cfg cl p s) in *.
+    assert (get_asg (p_name p) s1 = Some (m_name m)) as Ha1 by now rewrite A1, String.eqb_refl.
+    destruct (Hset _ _ E) as [E2|E2].
+    + rewrite <- Ha1 in E2. destruct (rec_step_some sg eq cfg cl p s1 m E2) as [P2 [A2 _]].
+      split; intros x.
+      * rewrite P2. destruct (String.eqb_spec x (m_name m)) as [->|Hne]; [|reflexivity].
+        rewrite !P1, String.eqb_refl. now rewrite apply_slot_idem_state.
+      * rewrite A2. destruct (String.eqb_spec x (p_name p)) as [->|Hne]; [|reflexivity].
+        now rewrite Ha1.
+    + rewrite <- Ha1 in E2. unfold rec_step at 1. rewrite (rec_step_none _ _ _ _ _ _ E2). apply st_equiv_refl.
+  - unfold rec_step. rewrite (rec_step_none _ _ _ _ _ _ E). cbn [fst].
+    rewrite (rec_step_none _ _ _ _ _ _ E). apply st_equiv_refl.
+Qed.
+
+(** pods whose groups have the same name carry the same metadata *)
+Definition agree_on_names (cfg : config) (cl : list obj) (p q : pod) : Prop :=
+  forall a b m m', full_md cfg cl p a = Some m -> full_md cfg cl q b = Some m' ->
+                   m_name m = m_name m' -> m = m'.
+
+Lemma rec_step_comm : forall sg eq cfg cl p q s,
+    (p_name p = p_name q -> p = q) -> agree_on_names cfg cl p q ->
+    st_equiv (rec_step sg eq cfg cl p (rec_step sg eq cfg cl q s)) (rec_step sg eq cfg cl q (rec_step sg eq cfg cl p s)).
+Proof.
+  intros sg eq cfg cl p q s Hinj Hagree.
+  destruct (String.eqb_spec (p_name p) (p_name q)) as [Heq|Hne].
+  { rewrite (Hinj Heq). apply st_equiv_refl. }
+  destruct (full_md cfg cl q (get_asg (p_name q) s)) as [mq|] eqn:Eq.
+  2:{ assert (rec_step sg eq cfg cl q s = s) as Hq by (unfold rec_step; now rewrite (rec_step_none _ _ _ _ _ _ Eq)).
+      rewrite Hq.
+      destruct (full_md cfg cl p (get_asg (p_name p) s)) as [mp|] eqn:Ep.
+      - destruct (rec_step_some sg eq cfg cl p s mp Ep) as [_ [A1 _]].
+        assert (full_md cfg cl q (get_asg (p_name q) (rec_step sg eq cfg cl p s)) = None) as Eq'.
+        { rewrite A1. destruct (String.eqb_spec (p_name q) (p_name p)); [congruence|assumption]. }
+        unfold rec_step at 2. rewrite (rec_step_none _ _ _ _ _ _ Eq'). apply st_equiv_refl.
+      - assert (rec_step sg eq cfg cl p s = s) as Hp by (unfold rec_step; now rewrite (rec_step_none _ _ _ _ _ _ Ep)).
+        rewrite Hp, Hq. apply st_equiv_refl. }
+  destruct (rec_step_some sg eq cfg cl q s mq Eq) as [Pq [Aq _]].
+  destruct (full_md cfg cl p (get_asg (p_name p) s)) as [mp|] eqn:Ep.
+  2:{ assert (rec_step sg eq cfg cl p s = s) as Hp by (unfold rec_step; now rewrite (rec_step_none _ _ _ _ _ _ Ep)).
+      rewrite Hp.
+      assert (full_md cfg cl p (get_asg (p_name p) (rec_step sg eq cfg cl q s)) = None) as Ep'.
+      { rewrite Aq. destruct (String.eqb_spec (p_name p) (p_name q)); [congruence|assumption]. }
+      unfold rec_step at 1. rewrite (rec_step_none _ _ _ _ _ _ Ep'). apply st_equiv_refl. }
+  destruct (rec_step_some sg eq cfg cl p s mp Ep) as [Pp [Ap _]].
+  assert (full_md cfg cl p (get_asg (p_name p) (rec_step sg eq cfg cl q s)) = Some mp) as Ep'.
+  { rewrite Aq. destruct (String.eqb_spec (p_name p) (p_name q)); [congruence|assumption]. }
+  assert (full_md cfg cl q (get_asg (p_name q) (rec_step sg eq cfg cl p s)) = Some mq) as Eq'.
+  { rewrite Ap. destruct (String.eqb_spec (p_name q) (p_name p)); [congruence|assumption]. }
+  destruct (rec_step_some sg eq cfg cl p _ mp Ep') as [Ppq [Apq _]].
+  destruct (rec_step_some sg eq cfg cl q _ mq Eq') as [Pqp [Aqp _]].
+  split; intros x.
+  - rewrite Ppq, Pqp, !Pq, !Pp.
+    destruct (String.eqb_spec (m_name mp) (m_name mq)) as [Hn|Hn].
+    + assert (mp = mq) as -> by (eapply Hagree; eauto).
+      rewrite String.eqb_refl. destruct (String.eqb x (m_name mq)); reflexivity.
+    + destruct (String.eqb_spec (m_name mq) (m_name mp)) as [Hn'|_]; [congruence|].
+      destruct (String.eqb_spec x (m_name mp)) as [->|Hx].
+      * destruct (String.eqb_spec (m_name mp) (m_name mq)); [congruence|reflexivity].
+      * reflexivity.
+  - rewrite Apq, Aqp, Aq, Ap.
+    destruct (String.eqb_spec x (p_name p)) as [->|Hx]; [|reflexivity].
+    destruct (String.eqb_spec (p_name p) (p_name q)); [congruence|reflexivity].
+Qed.
+
+(** a set of pods whose reconciles commute *)
+Record coherent (cfg : config) (cl : list obj) (ps : list pod) : Prop := {
+  coh_names : forall p q, In p ps -> In q ps -> p_name p = p_name q -> p = q;
+  coh_settles : forall p, In p ps -> settles cfg cl p;
+  coh_agree : forall p q, In p ps -> In q ps -> agree_on_names cfg cl p q
+}.
+
+Lemma run_reconciles_is_runs : forall sg eq cfg cl es s,
+    run_with sg eq cfg cl (map EvReconcile es) s = runs (rec_step sg eq cfg cl) es s.
+Proof.
+  intros sg eq cfg cl es. induction es as [|p es IH]; intros s; [reflexivity|].
+  cbn. unfold run_with in IH. now rewrite IH.
+Qed.
+
+Theorem order_independent_coherent : forall sg eq cfg cl ps es1 es2 s,
+    coherent cfg cl ps ->
+    incl es1 ps -> incl es2 ps -> incl es1 es2 -> incl es2 es1 ->
+    st_equiv (run_with sg eq cfg cl (map EvReconcile es1) s) (run_with sg eq cfg cl (map EvReconcile es2) s).
+Proof.
+  intros sg eq cfg cl ps es1 es2 s [Hn Hs Ha] I1 I2 I12 I21.
+  rewrite !run_reconciles_is_runs.
+  apply (runs_same_set st_equiv (rec_step sg eq cfg cl) (fun p => In p ps)).
+  - apply st_equiv_refl.
+  - apply st_equiv_sym.
+  - apply st_equiv_trans.
+  - intros; now apply rec_step_resp.
+  - intros p s0 Hp. apply rec_step_idem. now apply Hs.
+  - intros p q s0 Hp Hq. apply rec_step_comm; [now apply Hn|now apply Ha].
+  - apply Forall_forall. exact I1.
+  - apply Forall_forall. exact I2.
+  - exact I12.
+  - exact I21.
+Qed.
+
+(** * The grouping object does not depend on the pod unless the pod itself is used as an owner *)
+Lemma walk_indep : forall fuel cfg cl podo podo' r last acc top os,
+    walk fuel cfg cl podo r last acc = OwnersOk top os false ->
+    walk fuel cfg cl podo' r last acc = OwnersOk top os false.
+Proof.
+  induction fuel as [|f IH]; intros cfg cl podo podo' r last acc top os H; cbn in *; [discriminate|].
+  destruct (get_owner cfg cl r) as [o| |]; try discriminate.
+  - destruct (o_owners o) as [|r' [|r'' rest]]; try assumption; try discriminate.
+    eapply IH; eassumption.
+  - destruct last; [assumption|discriminate].
+Qed.
+
+Lemma resolve_used : forall fuel cl podo pl top owners pl' g os u,
+    resolve fuel cl podo pl top owners true = GOk pl' g os u -> u = true.
+Proof.
+  induction fuel as [|f IH]; intros cl podo pl top owners pl' g os u H.
+  - destruct pl; cbn in H; try discriminate; now inversion H.
+  - destruct pl; cbn [resolve] in H; try (now inversion H).
+    destruct (if Nat.leb (List.length owners) 1 then _ else _) as [[lo u0]|]; [|discriminate].
+    destruct owners as [|x xs]; [discriminate|].
+    cbn [orb] in H. eapply IH; eassumption.
+Qed.
+
+Lemma resolve_indep : forall fuel cl podo podo' pl top owners used pl' g os,
+    resolve fuel cl podo pl top owners used = GOk pl' g os false ->
+    resolve fuel cl podo' pl top owners used = GOk pl' g os false.
+Proof.
+  induction fuel as [|f IH]; intros cl podo podo' pl top owners used pl' g os H.
+  - destruct pl; cbn in *; try discriminate; assumption.
+  - destruct pl; cbn [resolve] in *; try assumption.
+    destruct (Nat.leb (List.length owners) 1) eqn:Hn.
+    + destruct owners as [|x xs]; [discriminate|].
+      rewrite orb_true_r in H. apply resolve_used in H. discriminate.
+    + destruct (nth_error owners (List.length owners - 2)) as [x|]; [|discriminate].
+      destruct (find_obj cl (o_gvk x) (o_name x)) as [y|]; [|discriminate].
+      destruct owners as [|x0 xs]; [discriminate|].
+      eapply IH; eassumption.
+Qed.
+
+Lemma grouping_indep : forall cfg cl p q a b pl g os,
+    p_owners p = p_owners q ->
+    grouping cfg cl p a = GOk pl g os false ->
+    grouping cfg cl q b = GOk pl g os false.
+Proof.
+  intros cfg cl p q a b pl g os Ho H. unfold grouping, get_pod_owners in *. rewrite <- Ho.
+  destruct (p_owners p) as [|r rs].
+  - apply resolve_used in H. discriminate.
+  - destruct (walk _ cfg cl (pod_obj p a) r None []) as [top owners tp| |] eqn:W; try discriminate.
+    destruct tp.
+    + apply resolve_used in H. discriminate.
+    + rewrite (walk_indep _ _ _ _ (pod_obj q b) _ _ _ _ _ W). eapply resolve_indep; eassumption.
+Qed.
+
+Lemma grouping_false_has_owners : forall cfg cl p a pl g os,
+    grouping cfg cl p a = GOk pl g os false -> p_owners p <> [].
+Proof.
+  intros cfg cl p a pl g os H Hnil. unfold grouping, get_pod_owners in H. rewrite Hnil in H.
+  apply resolve_used in H. discriminate.
+Qed.
+
+Lemma not_orphan_with_owners : forall p a, p_owners p <> [] -> is_orphan p a = false.
+Proof.
+  intros p a H. unfold is_orphan. destruct (lookup _ _); [|reflexivity].
+  destruct (p_owners p); [contradiction|reflexivity].
+Qed.
+
+(** * What the metadata reads of the pod *)
+Definition relevant_label_keys (cfg : config) : list string :=
+  [c_queue_key cfg; project_key; c_nodepool_key cfg; priority_key; preempt_key; user_key;
+   "spark-app-name"; "spark-app-selector"].
+
+(** same owner reference and same template-derived fields; name, uid and all other labels and
+    annotations may differ *)
+Definition same_template (cfg : config) (p q : pod) : Prop :=
+  p_owners p = p_owners q /\ p_prio p = p_prio q
+  /\ lookup user_key (p_annots p) = lookup user_key (p_annots q)
+  /\ forall k, In k (relevant_label_keys cfg) -> lookup k (p_labels p) = lookup k (p_labels q).
+
+Lemma same_template_refl : forall cfg p, same_template cfg p p.
+Proof. intros cfg p. repeat split; reflexivity. Qed.
+
+Lemma same_template_sym : forall cfg p q, same_template cfg p q -> same_template cfg q p.
+Proof. intros cfg p q [H1 [H2 [H3 H4]]]. repeat split; auto. intros k Hk. symmetry. auto. Qed.
+
+Lemma same_template_trans : forall cfg p q r, same_template cfg p q -> same_template cfg q r -> same_template cfg p r.
+Proof.
+  intros cfg p q r [H1 [H2 [H3 H4]]] [K1 [K2 [K3 K4]]]. repeat split; try congruence.
+  intros k Hk. rewrite H4, K4; auto.
+Qed.
+
+Section SameTemplate.
+  Variables (cfg : config) (p q : pod).
+  Hypothesis T : same_template cfg p q.
+
+  Let Hl : forall k, In k (relevant_label_keys cfg) -> lookup k (p_labels p) = lookup k (p_labels q).
+  Proof. exact (proj2 (proj2 (proj2 T))). Qed.
+
+  Lemma explicit_prio_same : forall o, explicit_prio o p = explicit_prio o q.
+  Proof.
+    intros o. unfold explicit_prio. rewrite (Hl priority_key) by (cbn; tauto).
+    destruct T as [_ [-> _]]. reflexivity.
+  Qed.
+
+  Lemma first_valid_prio_same : forall os, first_valid_prio cfg os p = first_valid_prio cfg os q.
+  Proof. induction os as [|o os IH]; cbn; [reflexivity|]. now rewrite explicit_prio_same, IH. Qed.
+
+  Lemma calc_prio_same : forall os d, calc_prio cfg os p d = calc_prio cfg os q d.
+  Proof. intros os d. unfold calc_prio. now rewrite first_valid_prio_same. Qed.
+
+  Lemma calc_preempt_same : forall os, calc_preempt cfg os p = calc_preempt cfg os q.
+  Proof. intros os. unfold calc_preempt. rewrite (Hl preempt_key) by (cbn; tauto). reflexivity. Qed.
+
+  Lemma calc_queue_same : forall g, calc_queue cfg g p = calc_queue cfg g q.
+  Proof.
+    intros g. unfold calc_queue.
+    rewrite (Hl (c_queue_key cfg)), (Hl project_key), (Hl (c_nodepool_key cfg)) by (cbn; tauto).
+    reflexivity.
+  Qed.
+
+  Lemma calc_labels_same : forall g, calc_labels g p = calc_labels g q.
+  Proof. intros g. unfold calc_labels. rewrite (Hl user_key) by (cbn; tauto). reflexivity. Qed.
+
+  Lemma calc_annots_same : forall g, calc_annots g p = calc_annots g q.
+  Proof. intros g. unfold calc_annots. destruct T as [_ [_ [-> _]]]. reflexivity. Qed.
+
+  Lemma default_md_same : forall g os, default_md cfg g p os = default_md cfg g q os.
+  Proof.
+    intros g os. unfold default_md.
+    now rewrite calc_labels_same, calc_annots_same, !calc_prio_same, !calc_preempt_same, calc_queue_same.
+  Qed.
+
+  Lemma add_node_pool_label_same : forall m, add_node_pool_label cfg m p = add_node_pool_label cfg m q.
+  Proof.
+    intros m. unfold add_node_pool_label. rewrite (Hl (c_nodepool_key cfg)) by (cbn; tauto). reflexivity.
+  Qed.
+
+  Lemma is_spark_pod_same : is_spark_pod p = is_spark_pod q.
+  Proof.
+    unfold is_spark_pod. rewrite (Hl "spark-app-name"), (Hl "spark-app-selector") by (cbn; tauto). reflexivity.
+  Qed.
+End SameTemplate.
+
+(** (1) siblings: same top owner, same template-derived fields => the very same metadata *)
+Theorem siblings_same_group : forall cfg cl p q a b g os,
+    same_template cfg p q ->
+    grouping cfg cl p a = GOk PDefault g os false ->
+    full_md cfg cl q b = full_md cfg cl p a
+    /\ exists m, full_md cfg cl p a = Some m
+                 /\ m_name m = pg_name (o_name g) (o_uid g) /\ m_min m = 1%Z /\ m_subgroups m = [].
+Proof.
+  intros cfg cl p q a b g os T G.
+  pose proof (grouping_indep cfg cl p q a b _ _ _ (proj1 T) G) as G'.
+  pose proof (grouping_false_has_owners _ _ _ _ _ _ _ G) as Hp.
+  pose proof (grouping_false_has_owners _ _ _ _ _ _ _ G') as Hq.
+  unfold full_md, reconcile_md. rewrite G, G', !not_orphan_with_owners by assumption.
+  cbn [leaf_md]. split.
+  - rewrite (default_md_same cfg p q T), (add_node_pool_label_same cfg p q T). reflexivity.
+  - eexists. split; [reflexivity|].
+    unfold add_node_pool_label. destruct (String.eqb (c_nodepool_key cfg) ""); cbn; auto.
+Qed.
+
+(** per-pod kinds: one group per pod, named after the pod, all other fields shared *)
+Definition same_but_identity (m m' : metadata) : Prop :=
+  m_labels m = m_labels m' /\ m_annots m = m_annots m' /\ m_prio m = m_prio m'
+  /\ m_preempt m = m_preempt m' /\ m_queue m = m_queue m' /\ m_min m = m_min m'
+  /\ m_subgroups m = m_subgroups m' /\ m_topo m = m_topo m'.
+
+Theorem per_pod_kinds : forall cfg cl p q a b pl g os,
+    same_template cfg p q -> pl = PDeployment \/ pl = PJob ->
+    grouping cfg cl p a = GOk pl g os false ->
+    exists m m', full_md cfg cl p a = Some m /\ full_md cfg cl q b = Some m'
+                 /\ m_name m = pg_name (p_name p) (match pl with PDeployment => p_uid p | _ => o_uid g end)
+                 /\ m_name m' = pg_name (p_name q) (match pl with PDeployment => p_uid q | _ => o_uid g end)
+                 /\ same_but_identity m m'.
+Proof.
+  intros cfg cl p q a b pl g os T Hpl G.
+  pose proof (grouping_indep cfg cl p q a b _ _ _ (proj1 T) G) as G'.
+  pose proof (grouping_false_has_owners _ _ _ _ _ _ _ G) as Hp.
+  pose proof (grouping_false_has_owners _ _ _ _ _ _ _ G') as Hq.
+  unfold full_md, reconcile_md. rewrite G, G', !not_orphan_with_owners by assumption.
+  destruct Hpl as [-> | ->]; cbn [leaf_md]; do 2 eexists; (split; [reflexivity|]); (split; [reflexivity|]).
+  - rewrite <- (add_node_pool_label_same cfg p q T).
+    unfold deployment_md, same_but_identity.
+    rewrite (default_md_same cfg p q T), (calc_prio_same cfg p q T).
+    unfold add_node_pool_label. destruct (String.eqb (c_nodepool_key cfg) ""); cbn; repeat split; reflexivity.
+  - rewrite <- (add_node_pool_label_same cfg p q T).
+    unfold job_md, with_name, same_but_identity. rewrite (default_md_same cfg p q T).
+    unfold add_node_pool_label. destruct (String.eqb (c_nodepool_key cfg) ""); cbn; repeat split; reflexivity.
+Qed.
+
+(** * When a pod settles *)
+Lemma full_md_indep : forall cfg cl p a a' pl g os,
+    grouping cfg cl p a = GOk pl g os false -> full_md cfg cl p a' = full_md cfg cl p a.
+Proof.
+  intros cfg cl p a a' pl g os G.
+  pose proof (grouping_indep cfg cl p p a a' _ _ _ eq_refl G) as G'.
+  pose proof (grouping_false_has_owners _ _ _ _ _ _ _ G) as Hp.
+  unfold full_md, reconcile_md. now rewrite G, G', !not_orphan_with_owners.
+Qed.
+
+Lemma bare_pod_orphan : forall p n, p_owners p = [] -> is_orphan p (Some n) = true.
+Proof.
+  intros p n H. unfold is_orphan, cur_annots. now rewrite lookup_aset_same, H.
+Qed.
+
+Lemma settles_bare : forall cfg cl p, p_owners p = [] -> settles cfg cl p.
+Proof.
+  intros cfg cl p H a m _. right. unfold full_md. now rewrite bare_pod_orphan.
+Qed.
+
+Lemma settles_not_pod_grouped : forall cfg cl p a pl g os,
+    grouping cfg cl p a = GOk pl g os false -> settles cfg cl p.
+Proof.
+  intros cfg cl p a pl g os G a' m H. left.
+  rewrite (full_md_indep _ _ _ _ (Some (m_name m)) _ _ _ G).
+  now rewrite <- (full_md_indep _ _ _ _ a' _ _ _ G).
+Qed.
+
+Lemma settles_cases : forall cfg cl p,
+    (p_owners p = [] \/ exists a pl g os, grouping cfg cl p a = GOk pl g os false) -> settles cfg cl p.
+Proof.
+  intros cfg cl p [H|[a [pl [g [os H]]]]]; [now apply settles_bare|eapply settles_not_pod_grouped; eauto].
+Qed.
+
+(** siblings of a shared kind form a coherent set *)
+Lemma siblings_coherent : forall cfg cl ps p0 a0 g os,
+    NoDup (map p_name ps) ->
+    (forall p, In p ps -> same_template cfg p0 p) ->
+    grouping cfg cl p0 a0 = GOk PDefault g os false ->
+    coherent cfg cl ps.
+Proof.
+  intros cfg cl ps p0 a0 g os Hnd Ht G. constructor.
+  - intros p q Hp Hq Hn. clear - Hnd Hp Hq Hn.
+    induction ps as [|x ps IH]; [contradiction|].
+    cbn in Hnd. inversion Hnd as [|? ? Hnotin Hnd']; subst.
+    destruct Hp as [->|Hp], Hq as [->|Hq]; auto.
+    + exfalso. apply Hnotin. rewrite Hn. now apply in_map.
+    + exfalso. apply Hnotin. rewrite <- Hn. now apply in_map.
+  - intros p Hp.
+    apply (settles_not_pod_grouped cfg cl p a0 PDefault g os).
+    apply (grouping_indep cfg cl p0 p a0 a0); [exact (proj1 (Ht p Hp))|exact G].
+  - intros p q Hp Hq a b m m' Em Em' _.
+    destruct (siblings_same_group cfg cl p0 p a0 a g os (Ht p Hp) G) as [E1 _].
+    destruct (siblings_same_group cfg cl p0 q a0 b g os (Ht q Hq) G) as [E2 _].
+    congruence.
+Qed.
+
+(** (2) for siblings of a shared kind *)
+Theorem order_independent_siblings : forall sg eq cfg cl ps p0 a0 g os es1 es2 s,
+    NoDup (map p_name ps) ->
+    (forall p, In p ps -> same_template cfg p0 p) ->
+    grouping cfg cl p0 a0 = GOk PDefault g os false ->
+    incl es1 ps -> incl es2 ps -> incl es1 es2 -> incl es2 es1 ->
+    st_equiv (run_with sg eq cfg cl (map EvReconcile es1) s) (run_with sg eq cfg cl (map EvReconcile es2) s).
+Proof.
+  intros sg eq cfg cl ps p0 a0 g os es1 es2 s Hnd Ht G I1 I2 I12 I21.
+  apply (order_independent_coherent sg eq cfg cl ps es1 es2 s); try assumption.
+  apply (siblings_coherent cfg cl ps p0 a0 g os); assumption.
+Qed.
+
+(** * (3) idempotence of the handler since 9775a95 *)
+Definition no_stale_subgroup (p : pod) : Prop :=
+  match lookup subgroup_label_key (p_labels p) with Some v => v | None => "" end = "".
+
+Definition idempotent_statement (sg : bool) (eq : pg -> pg -> bool) : Prop :=
+  forall cfg cl p s, settles cfg cl p -> no_stale_subgroup p ->
+                     snd (reconcile_with sg eq cfg cl p (rec_step sg eq cfg cl p s)) = 0%Z.
+
+Theorem idempotent_v1 : idempotent_statement true pg_equal_v1.
+Proof.
+  intros cfg cl p s Hset Hsg.
+  destruct (full_md cfg cl p (get_asg (p_name p) s)) as [m|] eqn:E.
+  - destruct (rec_step_some true pg_equal_v1 cfg cl p s m E) as [P1 [A1 _]].
+    set (s1 := rec_step true pg_equal_v1 cfg cl p s) in *.
+    assert (get_asg (p_name p) s1 = Some (m_name m)) as Ha1 by now rewrite A1, String.eqb_refl.
+    destruct (Hset _ _ E) as [E2|E2]; rewrite <- Ha1 in E2.
+    + destruct (rec_step_some true pg_equal_v1 cfg cl p s1 m E2) as [_ [_ W]].
+      rewrite W, P1, String.eqb_refl, apply_slot_v1_second_zero, Ha1.
+      unfold needs_patch, cur_annots, expected_subgroup. rewrite lookup_aset_same, String.eqb_refl.
+      unfold no_stale_subgroup in Hsg. rewrite Hsg. reflexivity.
+    + now rewrite (rec_step_none _ _ _ _ _ _ E2).
+  - unfold rec_step. rewrite (rec_step_none _ _ _ _ _ _ E). cbn [fst]. now rewrite (rec_step_none _ _ _ _ _ _ E).
+Qed.
+
+(** * (4) fields owned by other actors *)
+Definition fupd_view (f : foreign_upd) (v : fview) : fview :=
+  {| fv_queue := match f_queue f with Some q => q | None => fv_queue v end;
+     fv_mark := match f_mark f with Some x => x | None => fv_mark v end;
+     fv_backoff := match f_backoff f with Some x => x | None => fv_backoff v end;
+     fv_nodepool := match f_nodepool f with Some x => x | None => fv_nodepool v end |}.
+
+(** what the foreign updates alone do to the view of PodGroup [n] *)
+Fixpoint foreign_only (n : string) (evs : list event) (v : fview) : fview :=
+  match evs with
+  | [] => v
+  | EvReconcile _ :: r => foreign_only n r v
+  | EvForeign n' f :: r => foreign_only n r (if String.eqb n' n then fupd_view f v else v)
+  end.
+
+Lemma lookup_upd_label : forall k u l k',
+    lookup k' (upd_label k u l) =
+    if String.eqb k' k then match u with None => lookup k' l | Some x => x end else lookup k' l.
+Proof.
+  intros k u l k'. destruct u as [[v|]|]; cbn [upd_label].
+  - rewrite lookup_aset. reflexivity.
+  - rewrite lookup_adel. reflexivity.
+  - now destruct (String.eqb k' k).
+Qed.
+
+Lemma foreign_apply_view : forall cfg f g,
+    c_queue_key cfg <> c_nodepool_key cfg ->
+    foreign_view cfg (foreign_apply cfg f g) = fupd_view f (foreign_view cfg g).
+Proof.
+  intros cfg f g Hne. unfold foreign_view, foreign_apply, fupd_view.
+  cbn [norm sp_queue sp_mark sp_backoff pg_labels fv_queue fv_mark fv_backoff fv_nodepool].
+  f_equal. rewrite mget_norm_map. cbn [mget]. rewrite !lookup_upd_label, String.eqb_refl.
+  destruct (String.eqb_spec (c_nodepool_key cfg) (c_queue_key cfg)) as [E|_]; [congruence|].
+  rewrite mget_or_nil. unfold or_nil. destruct (f_nodepool f); reflexivity.
+Qed.
+
+Lemma step_foreign_view : forall sg eq cfg cl e s n g,
+    c_queue_key cfg <> c_nodepool_key cfg ->
+    get_pg n s = Some g ->
+    exists g', get_pg n (fst (step_with sg eq cfg cl e s)) = Some g'
+               /\ foreign_view cfg g' = foreign_only n [e] (foreign_view cfg g).
+Proof.
+  intros sg eq cfg cl e s n g Hne Hg. destruct e as [p|n' f]; cbn [step_with foreign_only].
+  - destruct (full_md cfg cl p (get_asg (p_name p) s)) as [m|] eqn:E.
+    + destruct (rec_step_some sg eq cfg cl p s m E) as [P1 _]. fold (rec_step sg eq cfg cl p s). rewrite P1.
+      destruct (String.eqb_spec n (m_name m)) as [->|Hn].
+      * rewrite Hg. eexists. split; [reflexivity|]. apply apply_slot_foreign_view.
+      * exists g. auto.
+    + rewrite (rec_step_none _ _ _ _ _ _ E). exists g. auto.
+  - destruct (get_pg n' s) as [g0|] eqn:E0; cbn [fst].
+    + unfold get_pg at 1. cbn [st_pgs]. rewrite lookup_aset. destruct (String.eqb_spec n n') as [->|Hn].
+      * rewrite String.eqb_refl. eexists. split; [reflexivity|].
+        assert (g0 = g) as -> by (unfold get_pg in *; congruence). now apply foreign_apply_view.
+      * destruct (String.eqb_spec n' n); [congruence|]. exists g. auto.
+    + destruct (String.eqb_spec n' n) as [->|_]; [congruence|]. exists g. auto.
+Qed.
+
+Theorem foreign_fields_kept : forall sg eq cfg cl evs s n g,
+    c_queue_key cfg <> c_nodepool_key cfg ->
+    get_pg n s = Some g ->
+    exists g', get_pg n (run_with sg eq cfg cl evs s) = Some g'
+               /\ foreign_view cfg g' = foreign_only n evs (foreign_view cfg g).
+Proof.
+  intros sg eq cfg cl evs. induction evs as [|e evs IH]; intros s n g Hne Hg.
+  - exists g. auto.
+  - destruct (step_foreign_view sg eq cfg cl e s n g Hne Hg) as [g1 [Hg1 Hv1]].
+    destruct (IH _ n g1 Hne Hg1) as [g' [Hg' Hv']].
+    exists g'. split; [exact Hg'|]. rewrite Hv', Hv1.
+    destruct e as [p|n' f]; reflexivity.
+Qed.
+
+(** a reconcile keeps a queue label that is present *)
+Theorem queue_label_kept : forall sg eq cfg cl p s n g v,
+    get_pg n s = Some g -> mget (c_queue_key cfg) (pg_labels g) = Some v ->
+    exists g', get_pg n (rec_step sg eq cfg cl p s) = Some g' /\ mget (c_queue_key cfg) (pg_labels g') = Some v.
+Proof.
+  intros sg eq cfg cl p s n g v Hg Hv.
+  destruct (full_md cfg cl p (get_asg (p_name p) s)) as [m|] eqn:E.
+  - destruct (rec_step_some sg eq cfg cl p s m E) as [P1 _]. rewrite P1.
+    destruct (String.eqb_spec n (m_name m)) as [->|Hn].
+    + rewrite Hg. eexists. split; [reflexivity|]. now apply apply_slot_queue_label.
+    + exists g. auto.
+  - unfold rec_step. rewrite (rec_step_none _ _ _ _ _ _ E). exists g. auto.
+Qed.
+
+(** a reconcile touches no PodGroup other than the pod's own *)
+Theorem other_groups_untouched : forall sg eq cfg cl p s n,
+    (forall m, full_md cfg cl p (get_asg (p_name p) s) = Some m -> m_name m <> n) ->
+    get_pg n (rec_step sg eq cfg cl p s) = get_pg n s.
+Proof.
+  intros sg eq cfg cl p s n H.
+  destruct (full_md cfg cl p (get_asg (p_name p) s)) as [m|] eqn:E.
+  - destruct (rec_step_some sg eq cfg cl p s m E) as [P1 _]. rewrite P1.
+    destruct (String.eqb_spec n (m_name m)) as [->|Hn]; [|reflexivity]. now elim (H m).
+  - unfold rec_step. now rewrite (rec_step_none _ _ _ _ _ _ E).
+Qed.
+
+(** * Statements that the faithful model refutes, and concrete instances *)
+Definition ex_cfg : config :=
+  {| c_queue_key := "kai.scheduler/queue"; c_nodepool_key := "kai.scheduler/node-pool";
+     c_prio_classes := ["train"]; c_defaults := CmNone; c_forbidden := [] |}.
+Definition ex_sts : obj :=
+  {| o_gvk := mk_gvk "apps" "v1" "StatefulSet"; o_name := "web"; o_uid := "u-sts";
+     o_labels := [("kai.scheduler/queue", "team-a")]; o_annots := []; o_owners := []; o_tom := "tom-web" |}.
+Definition ex_pod (i : string) : pod :=
+  {| p_name := "web-" ++ i; p_uid := "u-p" ++ i; p_labels := [("pod-index", i)]; p_annots := [];
+     p_prio := ""; p_owners := [{| r_gvk := mk_gvk "apps" "v1" "StatefulSet"; r_name := "web"; r_uid := "u-sts" |}];
+     p_tom := "tom-pod" |}.
+
+Lemma ex_grouping : forall i a, grouping ex_cfg [ex_sts] (ex_pod i) a = GOk PDefault ex_sts [ex_sts] false.
+Proof. intros i a. reflexivity. Qed.
+
+Lemma ex_settles : forall i, settles ex_cfg [ex_sts] (ex_pod i).
+Proof. intros i. eapply settles_not_pod_grouped. apply (ex_grouping i None). Qed.
+
+(** the handler before 9775a95: the second reconcile of a StatefulSet pod issues an Update *)
+Lemma ex_second_reconcile_writes_v0 :
+  snd (reconcile_with ignore_sg_v0 pg_equal_v0 ex_cfg [ex_sts] (ex_pod "0")
+         (rec_step ignore_sg_v0 pg_equal_v0 ex_cfg [ex_sts] (ex_pod "0") empty_state)) = 1%Z.
+Proof. vm_compute. reflexivity. Qed.
+
+Lemma idempotent_v0_refuted : ~ idempotent_statement ignore_sg_v0 pg_equal_v0.
+Proof.
+  intros H. specialize (H ex_cfg [ex_sts] (ex_pod "0") empty_state (ex_settles "0") eq_refl).
+  rewrite ex_second_reconcile_writes_v0 in H. discriminate.
+Qed.
+
+(** neither half of the repair suffices alone: with the sub-group step only, an owner without
+    labels still gets an Update per reconcile *)
+Definition ex_bare_sts : obj :=
+  {| o_gvk := mk_gvk "apps" "v1" "StatefulSet"; o_name := "web"; o_uid := "u-sts";
+     o_labels := []; o_annots := []; o_owners := []; o_tom := "tom-web" |}.
+Lemma ex_half_repairs_insufficient :
+  snd (reconcile_with true pg_equal_v0 ex_cfg [ex_bare_sts] (ex_pod "0")
+         (rec_step true pg_equal_v0 ex_cfg [ex_bare_sts] (ex_pod "0") empty_state)) = 1%Z
+  /\ snd (reconcile_with false pg_equal_v1 ex_cfg [ex_bare_sts] (ex_pod "0")
+            (rec_step false pg_equal_v1 ex_cfg [ex_bare_sts] (ex_pod "0") empty_state)) = 1%Z.
+Proof. split; vm_compute; reflexivity. Qed.
+
+(** a pod owned directly by a skip-top-owner kind is its own grouping object: its pod-group
+    annotation, once written, is copied into the PodGroup by the next reconcile *)
+Definition ex_wf : obj :=
+  {| o_gvk := mk_gvk "argoproj.io" "v1alpha1" "Workflow"; o_name := "wf"; o_uid := "u-wf";
+     o_labels := []; o_annots := []; o_owners := []; o_tom := "tom-wf" |}.
+Definition ex_step : pod :=
+  {| p_name := "step-0"; p_uid := "u-s0"; p_labels := []; p_annots := []; p_prio := "";
+     p_owners := [{| r_gvk := mk_gvk "argoproj.io" "v1alpha1" "Workflow"; r_name := "wf"; r_uid := "u-wf" |}];
+     p_tom := "tom-step" |}.
+
+Lemma ex_step_grouping :
+  grouping ex_cfg [ex_wf] ex_step None = GOk PPodJob (propagate (pod_obj ex_step None) ex_wf) [] true.
+Proof. reflexivity. Qed.
+
+Definition order_independent_unrestricted (sg : bool) (eq : pg -> pg -> bool) : Prop :=
+  forall cfg cl p s,
+    st_equiv (run_with sg eq cfg cl (map EvReconcile [p]) s) (run_with sg eq cfg cl (map EvReconcile [p; p]) s).
+
+Lemma order_independent_unrestricted_refuted :
+  ~ order_independent_unrestricted ignore_sg_v0 pg_equal_v0 /\ ~ order_independent_unrestricted ignore_sg_v1 pg_equal_v1.
+Proof.
+  split; intros H; destruct (H ex_cfg [ex_wf] ex_step empty_state) as [Hp _];
+    specialize (Hp "pg-step-0-u-s0");
+    apply (f_equal (option_map (fun g => mget pg_annotation_key (pg_annots g)))) in Hp;
+    vm_compute in Hp; discriminate.
+Qed.
+
+Lemma ex_step_not_settled : ~ settles ex_cfg [ex_wf] ex_step.
+Proof.
+  intros H. destruct (H None _ eq_refl) as [E|E]; vm_compute in E; discriminate.
+Qed.
+
+(** such a pod's second reconcile still writes after the repair (its third does not) *)
+Lemma ex_step_second_reconcile_writes :
+  snd (reconcile_with true pg_equal_v1 ex_cfg [ex_wf] ex_step
+         (rec_step true pg_equal_v1 ex_cfg [ex_wf] ex_step empty_state)) = 1%Z
+  /\ snd (reconcile_with true pg_equal_v1 ex_cfg [ex_wf] ex_step
+            (rec_step true pg_equal_v1 ex_cfg [ex_wf] ex_step
+               (rec_step true pg_equal_v1 ex_cfg [ex_wf] ex_step empty_state))) = 0%Z.
+Proof. split; vm_compute; reflexivity. Qed.
+
+(** a pod with a stale sub-group label is patched (with an empty patch) on every reconcile *)
+Definition ex_stale : pod :=
+  {| p_name := "web-9"; p_uid := "u-p9"; p_labels := [("kai.scheduler/subgroup-name", "gone")]; p_annots := [];
+     p_prio := ""; p_owners := [{| r_gvk := mk_gvk "apps" "v1" "StatefulSet"; r_name := "web"; r_uid := "u-sts" |}];
+     p_tom := "tom-pod" |}.
+Lemma ex_stale_repatched :
+  settles ex_cfg [ex_sts] ex_stale /\ ~ no_stale_subgroup ex_stale
+  /\ snd (reconcile_with true pg_equal_v1 ex_cfg [ex_sts] ex_stale
+            (rec_step true pg_equal_v1 ex_cfg [ex_sts] ex_stale
+               (rec_step true pg_equal_v1 ex_cfg [ex_sts] ex_stale empty_state))) = 1%Z.
+Proof.
+  split; [apply (settles_not_pod_grouped ex_cfg [ex_sts] ex_stale None PDefault ex_sts [ex_sts]); reflexivity|].
+  split; [discriminate|vm_compute; reflexivity].
+Qed.
+
+(** non-vacuity: two StatefulSet pods meet every hypothesis used above *)
+Lemma ex_nonvacuous :
+  same_template ex_cfg (ex_pod "0") (ex_pod "1")
+  /\ NoDup (map p_name [ex_pod "0"; ex_pod "1"])
+  /\ coherent ex_cfg [ex_sts] [ex_pod "0"; ex_pod "1"]
+  /\ no_stale_subgroup (ex_pod "0")
+  /\ c_queue_key ex_cfg <> c_nodepool_key ex_cfg
+  /\ let s := run ex_cfg [ex_sts] [EvReconcile (ex_pod "1"); EvReconcile (ex_pod "0")] empty_state in
+     get_asg "web-0" s = Some "pg-web-u-sts" /\ get_asg "web-1" s = Some "pg-web-u-sts"
+     /\ exists g, get_pg "pg-web-u-sts" s = Some g /\ sp_queue g = "team-a" /\ sp_min g = 1%Z
+                  /\ List.length (st_pgs s) = 1%nat.
+Proof.
+  assert (same_template ex_cfg (ex_pod "0") (ex_pod "1")) as T.
+  { repeat split. intros k Hk. cbn in Hk.
+    repeat (destruct Hk as [<-|Hk]; [reflexivity|]). contradiction. }
+  assert (NoDup (map p_name [ex_pod "0"; ex_pod "1"])) as N.
+  { cbn. constructor; [cbn; intros [H|[]]; discriminate|]. constructor; [intros []|constructor]. }
+  split; [exact T|]. split; [exact N|]. split.
+  { apply (siblings_coherent ex_cfg [ex_sts] _ (ex_pod "0") None ex_sts [ex_sts] N).
+    - intros p [<-|[<-|[]]]; [apply same_template_refl|exact T].
+    - apply ex_grouping. }
+  split; [reflexivity|]. split; [discriminate|].
+  cbv zeta. split; [vm_compute; reflexivity|]. split; [vm_compute; reflexivity|].
+  eexists. split; [vm_compute; reflexivity|]. repeat split.
 Qed.
